@@ -202,6 +202,10 @@ type Delivery struct {
 	Style  int     `json:"style"`          // text rendering: bits 0-1 strings (0 double quoted, 1 single quoted, 2 bare), bit 2 top-level list without brackets, bit 3 blanks after separators
 	PCfg   string  `json:"pcfg,omitempty"` // resolver: parse.Config returned with the text: "" default | env | nocomma
 	Pieces []Piece `json:"pieces,omitempty"`
+	// cfgref, env: the reference does not lead to the literal directly
+	HopsCfg int    `json:"hopscfg,omitempty"` // this many settings of the configuration, each a reference to the next, lie between the expansion site and the literal (or the first Env setting)
+	HopsEnv int    `json:"hopsenv,omitempty"` // env: this many settings of the Env configuration, each a reference to the next, precede the literal there
+	Nest    string `json:"nest,omitempty"`    // the literal is "" a top-level setting | list: element 1 of a list | obj: a member of an object
 }
 
 const (
@@ -229,6 +233,12 @@ func genDelivery(t *rapid.T, depth int) *Delivery {
 	switch d.Mode {
 	case "resolver":
 		d.PCfg = rapid.SampledFrom([]string{"", "", "env", "nocomma"}).Draw(t, "pcfg")
+	case "cfgref", "env":
+		d.HopsCfg = rapid.SampledFrom([]int{0, 0, 0, 1, 1, 2}).Draw(t, "hopscfg")
+		if d.Mode == "env" {
+			d.HopsEnv = rapid.SampledFrom([]int{0, 0, 0, 1, 2}).Draw(t, "hopsenv")
+		}
+		d.Nest = rapid.SampledFrom([]string{"", "", "list", "obj"}).Draw(t, "nest")
 	case "splice":
 		n := rapid.IntRange(1, 4).Draw(t, "npieces")
 		cut := 0
@@ -479,6 +489,27 @@ type artifacts struct {
 	text    string                 // the delivered text (for messages)
 	spell   *speller               // how the data was spelled (nil: as dumped, nested)
 	layered bool                   // the data was loaded as two inputs
+	envExp  bool                   // the Env configuration holds references (it is loaded with VarExp)
+}
+
+func hasDollar(v interface{}) bool {
+	switch x := v.(type) {
+	case string:
+		return strings.Contains(x, "$")
+	case map[string]interface{}:
+		for _, e := range x {
+			if hasDollar(e) {
+				return true
+			}
+		}
+	case []interface{}:
+		for _, e := range x {
+			if hasDollar(e) {
+				return true
+			}
+		}
+	}
+	return false
 }
 
 func newArtifacts() *artifacts {
@@ -529,16 +560,48 @@ func applyDelivery(data interface{}, c *Case, prefix []string, art *artifacts) (
 		return strings.Join(append(append([]string{}, p...), more...), ".")
 	}
 	var expr string
+	// the literal as a top-level setting, as element 1 of a list or as a member of an object
+	nest := func(v interface{}) (interface{}, []string) {
+		switch d.Nest {
+		case "list":
+			return []interface{}{map[string]interface{}{"x": 1}, v}, []string{"1"}
+		case "obj":
+			return map[string]interface{}{"o": 1, "in": v}, []string{"in"}
+		}
+		return v, nil
+	}
+	// n settings of the configuration, each a reference to the next, the last one to target
+	cfgHops := func(target string) string {
+		for i := d.HopsCfg; i > 0; i-- {
+			name := fmt.Sprintf("c14h%d", i)
+			root[name] = "${" + target + "}"
+			target = join(prefix, name)
+		}
+		return target
+	}
 	switch d.Mode {
 	case "cfgref":
-		root[auxSrc] = sub
-		expr = "${" + join(prefix, auxSrc) + "}"
-		art.alt = append(append(append([]string{}, prefix...), auxSrc), rest...)
+		lit, seg := nest(sub)
+		root[auxSrc] = lit
+		expr = "${" + cfgHops(join(append(append([]string{}, prefix...), auxSrc), seg...)) + "}"
+		art.alt = append(append(append(append([]string{}, prefix...), auxSrc), seg...), rest...)
 		art.altSrc = c.Meta
 	case "env":
-		art.env[auxEnv] = sub
-		expr = "${" + auxEnv + "}"
-		art.alt = append([]string{auxEnv}, rest...)
+		lit, seg := nest(sub)
+		art.env[auxEnv] = lit
+		target := join([]string{auxEnv}, seg...)
+		if d.HopsEnv > 0 && !hasDollar(lit) {
+			// settings of the Env configuration that refer to the next one (the Env configuration is then
+			// loaded with VarExp: its literals must not contain '$')
+			art.envExp = true
+			for i := d.HopsEnv; i > 0; i-- {
+				name := fmt.Sprintf("C14H%d", i)
+				art.env[name] = "${" + target + "}"
+				target = name
+			}
+		}
+		expr = "${" + cfgHops(target) + "}"
+		art.alt = append(append([]string{auxEnv}, seg...), rest...)
 		art.altSrc = envSource
 	case "resolver":
 		text, pc, ok := renderChecked(sub, d.Style, d.PCfg)
@@ -672,7 +735,11 @@ func refFaultExpr(rf *RefFault, payload *gen.Tree, prefix, path []string) (strin
 func readOpts(art *artifacts, noResolver bool) ([]ucfg.Option, error) {
 	opts := []ucfg.Option{ucfg.PathSep(".")}
 	if len(art.env) > 0 {
-		env, err := ucfg.NewFrom(art.env, ucfg.PathSep("."), ucfg.MetaData(ucfg.Meta{Source: envSource}))
+		eopts := []ucfg.Option{ucfg.PathSep("."), ucfg.MetaData(ucfg.Meta{Source: envSource})}
+		if art.envExp {
+			eopts = append(eopts, ucfg.VarExp)
+		}
+		env, err := ucfg.NewFrom(art.env, eopts...)
 		if err != nil {
 			return nil, fmt.Errorf("harness: Env configuration: %v", err)
 		}
